@@ -323,6 +323,12 @@ class FilterAnalyzer(desc.ResetMixin):
             t0 = self._ts.t0
             time_unit = self._ts.time_unit
 
+        # integer recordings are filtered as floating point numbers: neither
+        # the filter output nor the restored mean is integer-valued (and the
+        # edge extension of scipy's filtfilt wraps around in unsigned types)
+        if not np.issubdtype(data.dtype, np.inexact):
+            data = data.astype(float)
+
         # filtfilt only operates channel-by-channel, so we need to loop over
         # the channels, if the data is multi-channel data:
         if len(data.shape) > 1:
